@@ -9,11 +9,14 @@ LEAN_IMPORTS = ["WM.Props.C16"]
 THEOREMS = ["WM.C16.total_filterize", "WM.C16.total", "WM.C16.total_multifield", "WM.C16.total_simple",
             "WM.C16.precedence", "WM.C16.precedence_default", "WM.C16.precedence_meaning", "WM.C16.fields",
             "WM.C16.total_query_partial", "WM.C16.gtlt_meaning", "WM.C16.wildcard_prefix_sound",
-            "WM.C16.query_meaning", "WM.C16.precedence_query"]
+            "WM.C16.query_meaning", "WM.C16.precedence_query",
+            "WM.C16.tag_total", "WM.C16.tag_lossless", "WM.C16.tag_kinds", "WM.C16.total_text",
+            "WM.C16.total_text_simple"]
 _TOTAL_HYP = (
-    "carries two unproved hypotheses: `hns` (the taggers only emit a flat list of the node kinds of `defaultTagged` / "
-    "`simpleTagged`; the tagger regular expressions are not modelled - every run compares the model with the real "
-    "tag()/filterize() output, no proof) and `ho : leavesOk` (a leaf's own query() raises at most QueryParserError; "
+    "carries two hypotheses: `hns` (the node list is flat and of the node kinds of `defaultTagged` / `simpleTagged`; "
+    "`total_text` / `total_text_simple` discharge it from the model of QueryParser.tag() and of the bracket, "
+    "white-space and operator taggers, leaving per-tagger hypotheses for the taggers that are real regular "
+    "expressions) and `ho : leavesOk` (a leaf's own query() raises at most QueryParserError; "
     "the field types, analyzers and dateparse are explored by fuzzing only). parse()'s trailing q.normalize() and "
     "the half of the property 'searching the parsed query raises at most QueryError' have no theorem at all: "
     "end-to-end fuzzing (exploration)")
@@ -24,7 +27,22 @@ _PREC_HYP = (
     "is not composed with the precedence theorems; nothing is proved about the meaning of do_boost. Expressions "
     "with field prefixes, wildcards, ranges and comparison signs are only checked end to end (documents expected by "
     "an oracle that does not use the parser)")
+_TAG_HYP = (
+    "the taggers whose expression is a fixed string with a one-character context (GroupPlugin brackets, "
+    "WhitespacePlugin, OperatorsPlugin.OpTagger with the three shapes of the default expressions) are modelled; every "
+    "other tagger (field names, phrases, ranges, boosts, wildcards, prefixes, regexes, fuzziness, comparison signs, "
+    "plus/minus, functions, dates: real regular expressions) enters as a function position -> answer with the "
+    "hypotheses `Forward` (match not empty), `Bounded` (match ends inside the string) and, for total_text*, "
+    "`defaultTagger`/`simpleTagged` (it creates a node of its own kind). Those are not proved; on every run the "
+    "table of each such tagger's real answers at every position is fed to the model and the result compared with "
+    "the real tag() (nodes and character ranges)")
 PARTIAL = {
+    "WM.C16.tag_total": _TAG_HYP,
+    "WM.C16.tag_lossless": _TAG_HYP,
+    "WM.C16.tag_kinds": _TAG_HYP,
+    "WM.C16.total_text": _TAG_HYP + "; and `ho : leavesOk` as in `total`; parse()'s trailing normalize() and the search "
+                         "half of the property have no theorem (end-to-end fuzzing)",
+    "WM.C16.total_text_simple": _TAG_HYP + "; and `ho : leavesOk` as in `total_simple`",
     "WM.C16.total": _TOTAL_HYP,
     "WM.C16.total_multifield": _TOTAL_HYP,
     "WM.C16.total_simple": _TOTAL_HYP,
@@ -319,6 +337,49 @@ def _correspondence(ctx, recs, cfgs):
             ctx.stat("query:" + rec["q"].split(" ", 1)[0] + (":" + rec["q"][4:] if rec["q"].startswith("err") else ""))
             if got != rec["q"]:
                 ctx.divergence("query", case, got, rec["q"])
+
+
+def _tag_work(args):
+    """Worker: QueryParser.tag() against the model of the tag loop (lean/WM/Model/ParserTag.lean):
+    the fixed-string taggers are sent structurally, the others as the table of their answers."""
+    name, strings = args
+    from gen import parser as G
+    p = G.get_parser(name)
+    out = []
+    for s in strings:
+        try:
+            req, kinds = G.tag_request(p, s)
+        except G.TaggerRaised as e:
+            out.append((name, s, None, str(e), []))
+            continue
+        out.append((name, s, req, G.real_tagged(p, s), kinds))
+    return out
+
+
+def _tagstream(ctx, strings):
+    from gen import parser as G
+    rng = ctx.rng("tagstream")
+    per = ctx.budget(150, 1000)
+    short = [s for s in strings if len(s) <= 60]
+    jobs = []
+    for name in G.CONFIGS:
+        pick = list(G.REGRESSION_STRINGS[:10]) + rng.sample(short, min(per, len(short)))
+        for a in range(0, len(pick), 35):
+            jobs.append((name, pick[a:a + 35]))
+    rows = [r for part in ctx.pmap(_tag_work, jobs) for r in part]
+    live = [r for r in rows if r[2] is not None]
+    for r in rows:
+        if r[2] is None:
+            ctx.stat("tag:skipped-tagger-raised")
+    answers = ctx.driver.ask([r[2] for r in live])
+    for (name, s, _req, real, kinds), ans in zip(live, answers):
+        ctx.case(("tag", name, s), nontrivial=real.count("(") > 2)
+        ctx.stat("tag:" + real.split(" ", 1)[0])
+        for k in set(kinds):
+            ctx.stat("tag:tagger-kind:" + k)
+        # which exception class the "did not move" failure has is not compared
+        if ans != real and not (ans.startswith("err") and real.startswith("err")):
+            ctx.divergence("tag", {"config": name, "text": s}, ans, real)
 
 
 WF_CONFIGS = ["default", "or", "or-scaled", "multifield", "modelled-all", "fuzzy", "gtlt",
@@ -663,8 +724,10 @@ def run(ctx):
     t3 = time.time()
     _wellformed(ctx)
     t4 = time.time()
-    ctx.note("timing: fuzz workers %.1fs, totality+shrinking %.1fs, correspondence %.1fs, well-formed stream %.1fs"
-             % (t1 - t0, t2 - t1, t3 - t2, t4 - t3))
+    _tagstream(ctx, strings)
+    t5 = time.time()
+    ctx.note("timing: fuzz workers %.1fs, totality+shrinking %.1fs, correspondence %.1fs, well-formed stream %.1fs, "
+             "tag stream %.1fs" % (t1 - t0, t2 - t1, t3 - t2, t4 - t3, t5 - t4))
 
 
 def _tuplify(x):
@@ -695,7 +758,10 @@ def replay(ctx, rec):
 
 
 EXPLANATION = (
-    "Three streams. (1) Correspondence: the real tag() output of every generated string is serialised and fed to the "
+    "Four streams. (0) Tagging: for every configuration the priorized taggers are serialised (brackets, white space "
+    "and default-shaped operator taggers structurally, the others as the table of their real match() answers at every "
+    "position) and the Lean model of QueryParser.tag() must return the node list and character ranges of the real "
+    "tag(). (1) Correspondence: the real tag() output of every generated string is serialised and fed to the "
     "Lean model of the filter pipeline; the model's tree must equal the real filterize() tree, the model's query() "
     "composition must equal the real query() result (leaf queries taken from the real field layer), error kinds "
     "included. (2) Totality end-to-end: every shipped configuration parses every string (Query or QueryParserError "
@@ -709,8 +775,11 @@ EXPLANATION = (
     "fields (stored values compared directly), with and without a field prefix, on single-field and Multifield parsers."
 )
 ASSUMPTIONS = [
-    "the taggers emit a flat list of the node kinds listed in `defaultTagged`/`simpleTagged` (hypothesis `hns` of "
-    "total/total_multifield/total_simple; compared with the real tagger on every run, not proved)",
+    "the taggers that are real regular expressions (everything but brackets, white space and the default-shaped "
+    "operator expressions) match a non-empty piece of the string and create a node of their own kind (hypotheses "
+    "`Forward`/`Bounded`/`defaultTagger` of tag_total/tag_lossless/total_text; their real answers at every position "
+    "are fed to the model of tag() on every run, not proved); total/total_multifield still take the flat node list "
+    "as hypothesis `hns`, which total_text discharges for the default plug-in set",
     "a leaf's query() raises at most QueryParserError (hypothesis `leavesOk`; explored by fuzzing every shipped field type)",
     "every leaf of a well-formed expression yields a query (hypothesis of query_meaning/precedence_query; false for "
     "stop words, whose None cases are stated separately)",
@@ -726,8 +795,11 @@ TRUSTED = [
 ]
 
 MANIFEST = {
-    "level_text": "Lean theorems (no bounds) over an executable model of the query parser's filter pipeline and of the "
-                  "group nodes' query(): (a) filterize is total for every configuration and every node list, every "
+    "level_text": "Lean theorems (no bounds) over an executable model of QueryParser.tag() with the fixed-string "
+                  "taggers, of the query parser's filter pipeline and of the "
+                  "group nodes' query(): (0) tag() raises nothing but its own 'did not move' exception and not even "
+                  "that when every match is non-empty, its nodes' character ranges tile the string, and every node is an "
+                  "interstitial word or the answer of the first matching tagger; (a) filterize is total for every configuration and every node list, every "
                   "Python index access of the mirrored code being in bounds; (b) for every well-formed expression of "
                   "the documented language (NOT > AND > OR > ANDNOT > ANDMAYBE > REQUIRE > juxtaposition, parentheses) "
                   "the pipeline builds exactly the intended tree, which selects exactly the documents its reading "
